@@ -432,8 +432,12 @@ def exec_stdio_routed_case(ctx, case: Dict[str, Any]) -> None:
                 reqs, st["reqs"] = st["reqs"], []
                 for k in perm:
                     r = reqs[k]
-                    p.feed((json.dumps({"jsonrpc": "2.0", "method": "notifications/message", "params": {"level": "info"}}) + "\n"
-                            + json.dumps({"jsonrpc": "2.0", "id": r["id"], "result": {"tag": r["params"]["tag"]}}) + "\n").encode())
+                    own_req = b""
+                    if case.get("srv_req_same_id"):
+                        # before answering, the server makes a request of its own that happens to use the same id
+                        own_req = (json.dumps({"jsonrpc": "2.0", "id": r["id"], "method": "ping"}) + "\n").encode()
+                    p.feed(own_req + (json.dumps({"jsonrpc": "2.0", "method": "notifications/message", "params": {"level": "info"}}) + "\n"
+                                      + json.dumps({"jsonrpc": "2.0", "id": r["id"], "result": {"tag": r["params"]["tag"]}}) + "\n").encode())
         p.stdin.send = send
         return p
 
@@ -450,6 +454,8 @@ def exec_stdio_routed_case(ctx, case: Dict[str, Any]) -> None:
         async def caller(name, client, i):
             rid: Any = str(i + 1) if case["ids"] == "str" else i + 1
             for rnd in range(rounds):
+                if case.get("fresh_ids"):
+                    rid = f"{i + 1}.{rnd}"
                 key = f"{name}-{i}" if rounds == 1 else f"{name}-{i}r{rnd}"
                 tag = f"{name}-caller-{i}" if rounds == 1 else f"{name}-caller-{i}r{rnd}"
                 # (in later rounds this registration follows the previous receive() without any checkpoint in between)
@@ -468,7 +474,9 @@ def exec_stdio_routed_case(ctx, case: Dict[str, Any]) -> None:
 
         async def connection(name, started, go):
             async with SC.StdioClient(StdioParameters(command=f"scripted-{name}")) as client:
-                d = asyncio.create_task(drain(client.get_streams()[0]), name=f"vf-drain-{name}")
+                # (an application that uses the per-request API only does not read the general stream)
+                d = asyncio.create_task(drain(client.get_streams()[0]) if not case.get("main_unread") else asyncio.sleep(0),
+                                        name=f"vf-drain-{name}")
                 started.set()
                 await go.wait()
                 tasks = []
@@ -526,6 +534,16 @@ def run(ctx):
             case = {"n": n, "perm": list(range(n)), "connections": 1, "ids": "str", "rounds": rounds, "via": "stdio_routed"}
             if ctx.mine():
                 exec_stdio_routed_case(ctx, case)
+    for n in (1, 2, 3):
+        for conns in (1, 2):
+            case = {"n": n, "perm": list(range(n))[::-1], "connections": conns, "ids": "str", "srv_req_same_id": True, "via": "stdio_routed"}
+            if ctx.mine():
+                exec_stdio_routed_case(ctx, case)
+    for n, rounds in ((1, 130), (3, 45), (2, 101)):
+        case = {"n": n, "perm": list(range(n)), "connections": 1, "ids": "str", "rounds": rounds, "fresh_ids": True,
+                "main_unread": True, "via": "stdio_routed"}
+        if ctx.mine():
+            exec_stdio_routed_case(ctx, case)
     for n in (2, 3, 4):
         for form in ("lines", "batch", "batch_junk_first", "batch_junk_between", "batch_all_junk_first"):
             case = {"n": n, "form": form, "via": "stdio"}
